@@ -153,3 +153,6 @@ Theorem C17_rejection_classes : forall T c e, build T c = Err e -> e = SchemaErr
 Proof. exact build_errors. Qed.
 Theorem C17_entry_rejection_classes : forall T c fk e, fn T fk c = Err e -> e = SchemaError \/ e = ValueError \/ e = TypeError.
 Proof. intros T c. exact (proj1 (fn_errors T c)). Qed.
+(* an object type the registry does not know never yields a space *)
+Theorem C17_unknown_object_type_never_built : forall T names ts, object_types T names = Ok ts -> forall s, In s names -> In s (t_objects T) /\ is_custom s = false.
+Proof. exact object_types_known. Qed.
